@@ -115,6 +115,40 @@ def c05_sibling(split, ppn, pn, dpn, dn, ppa, pa, ppb, pb):
     return False
 
 
+def c05_wrap_ops(split, op, n, ki, ci):
+    """premerge operators (!append / !extend on existing, missing, scalar and mapping targets) commute with wrapping:
+    the operator's target is resolved relative to where the document sits"""
+    from harness.C16 import base_text, op_text, KEYS as LKEYS
+    reset()
+    op = pick(op, 9)              # operators 0..8 of C16: append/extend (no !prev: its argument is an absolute path)
+    n = pick(n, 3)
+    K = LKEYS[pick(ki, len(LKEYS))]
+    chain = CHAINS[pick(ci, len(CHAINS))]
+    L = ['100', '{y: 101}'][:n]
+    k1, v1 = op_text(op, K, L)
+
+    def indent(text, chain_):
+        out = text
+        for key in reversed(chain_):
+            out = key + ':\n' + ''.join('  ' + line + '\n' for line in out.rstrip('\n').split('\n'))
+        return out
+    docs = [base_text(K), '%s: %s\n' % (k1, v1)]
+    wdocs = [indent(d, chain) for d in docs]
+    base = _outcome(docs)
+    wrapped = _outcome(wdocs)
+    note(docs=docs, wdocs=wdocs, base=repr(base), wrapped=repr(wrapped))
+    if base[0] == 'err' or wrapped[0] == 'err':
+        wit('error_both' if base == wrapped else 'error_one')
+        return base[0] == wrapped[0] and base[1] == wrapped[1]
+    cur = wrapped[1]
+    for k in chain:
+        if not isinstance(cur, dict) or list(cur.keys()) != [k]:
+            return False
+        cur = cur[k]
+    wit('built')
+    return cur == base[1]
+
+
 def _splits_wrap(tier):
     out = []
     for ci in range(len(CHAINS)):
@@ -124,9 +158,12 @@ def _splits_wrap(tier):
                     continue
                 if tier == 'quick' and (ci in (1, 4) or newer == 4 or (ci == 3 and newer not in (0, 3))):
                     continue
-                out.append({'chain': ci, 'older': older, 'newer': newer, 'third': False})
-                if tier != 'quick' and newer in (0, 3):
-                    out.append({'chain': ci, 'older': older, 'newer': newer, 'third': True})
+                for pre in ('ppn', 'not ppn'):
+                    if tier == 'quick':
+                        pre = pre + (' and ppb' if (older + newer + ci) % 2 == 0 else ' and not ppb')
+                    out.append({'chain': ci, 'older': older, 'newer': newer, 'third': False, '_pre': pre})
+                    if tier != 'quick' and newer in (0, 3):
+                        out.append({'chain': ci, 'older': older, 'newer': newer, 'third': True, '_pre': pre})
     return out
 
 
@@ -136,9 +173,10 @@ def _splits_sibling(tier):
         for newer in (0, 1, 3, 6):
             if (older == 3) != (newer == 6):
                 continue
-            out.append({'older': older, 'newer': newer, 'third': False})
-            if tier != 'quick':
-                out.append({'older': older, 'newer': newer, 'third': True})
+            for pre in ('ppn', 'not ppn'):
+                out.append({'older': older, 'newer': newer, 'third': False, '_pre': pre})
+                if tier != 'quick':
+                    out.append({'older': older, 'newer': newer, 'third': True, '_pre': pre})
     return out
 
 
@@ -149,6 +187,9 @@ HARNESSES = {
     'c05_wrap': Harness('c05_wrap', c05_wrap, PARAMS, _splits_wrap,
                         doc='two builds per path: documents vs documents wrapped under a key chain (keys also used inside); results must be equal under the chain',
                         witnesses=('built', 'entry_survived')),
+    'c05_wrap_ops': Harness('c05_wrap_ops', c05_wrap_ops, [('op', 'int', 0, 8), ('n', 'int', 0, 2), ('ki', 'int', 0, 2), ('ci', 'int', 0, len(CHAINS) - 1)],
+                            lambda tier: [{'_pre': 'ki == %d' % k + (' and n == 1' if tier == 'quick' else '')} for k in range(3)],
+                            doc='!append / !extend documents vs the same documents wrapped under a key chain (3 spellings of the list key)', witnesses=('built',)),
     'c05_sibling': Harness('c05_sibling', c05_sibling, PARAMS, _splits_sibling,
                            doc='two builds per path: sibling entry with an arbitrary priority vs plain, plus an unrelated tagged sibling subtree; all other paths equal',
                            witnesses=('built', 'sibling_differs')),
